@@ -17,10 +17,11 @@ the way Go evaluates a type switch (first arm that matches).  The only `recover(
 framer.parseFrame (which re-panics runtime.Error), so a panic raised at any of these sites ends the
 goroutine it runs on, i.e. the process: that is outcome `crash`.
 
-`fx = false` is the code that exists; `fx = true` is the code after the proposed fixes
-(props/C05.fix-{16,17,18,19}.diff): heartbeat `default:` treats the frame as a failed heartbeat instead of
-`panic`, authenticateHandshake returns an error when AUTH_CHALLENGE arrives and the authenticator
-gave no challenger.
+The table describes the code AFTER the repairs of KF-C05-22 (Conn.heartBeat `default:` closes the
+connection with an error instead of `panic`), KF-C05-23 (controlConn.heartBeat `default:` logs and
+reconnects instead of `panic`), KF-C05-24 (authenticateHandshake returns an error when AUTH_CHALLENGE
+arrives and the authenticator gave no challenger) and KF-C05-25 (hostInfoFromMap returns an error for a
+row without a usable address instead of calling HostInfo.ConnectAddress, which panics).
 
 The table is re-extracted from the source by harness/c05disp (go/ast) on every run and compared
 cell by cell (`disp`), arm by arm (`disparms`), site list (`dispsites`), frame types (`dispkinds`).
@@ -159,8 +160,8 @@ structure Desc where
   dflt : Option Act            -- none: no default arm (falls through, nothing happens)
 
 open FrameKind in
-/-- THE TABLE (hand-written from conn.go / control.go / events.go; `fx`: after the proposed fixes) -/
-def desc (fx : Bool) : Site → Desc
+/-- THE TABLE (hand-written from conn.go / control.go / events.go) -/
+def desc : Site → Desc
   | .options =>          -- conn.go options(): `supported, ok := frame.(*supportedFrame); if !ok { return NewErrProtocol }`
     ⟨.assert, .call, [([.ty supported], .handled)], some .error⟩
   | .startup =>          -- conn.go startup()
@@ -170,12 +171,12 @@ def desc (fx : Bool) : Site → Desc
     ⟨.switch, .call,
       [([.errorIface], .error),
        ([.ty authSuccess], .handled),        -- `if challenger != nil { return challenger.Success(..) }; return nil`
-       ([.ty authChallenge],                 -- `resp, challenger, err = challenger.Challenge(v.data)`
-          if nilCh then (if fx then .error else .nilcall) else .handled)],
+       ([.ty authChallenge],                 -- `if challenger == nil { return error }; resp, challenger, err = challenger.Challenge(v.data)`
+          if nilCh then .error else .handled)],
       some .error⟩
   | .connHeartBeat =>    -- conn.go (c *Conn) heartBeat
     ⟨.switch, .goMethod, [([.ty supported], .handled), ([.errorIface], .error)],
-      some (if fx then .error else .panic)⟩
+      some .error⟩
   | .prepareStatement => -- conn.go prepareStatement, inside `go func(){..}()`
     ⟨.switch, .goLiteral, [([.ty resultPrepared], .handled), ([.errorIface], .error)], some .error⟩
   | .executeQuery =>     -- conn.go executeQuery
@@ -193,7 +194,7 @@ def desc (fx : Bool) : Site → Desc
       some .error⟩
   | .controlHeartBeat => -- control.go (c *controlConn) heartBeat
     ⟨.switch, .goMethod, [([.ty supported], .handled), ([.errorIface], .error)],
-      some (if fx then .error else .panic)⟩
+      some .error⟩
   | .registerEvents =>   -- control.go registerEvents: `else if _, ok := frame.(*readyFrame); !ok { return fmt.Errorf }`
     ⟨.assert, .call, [([.ty ready], .handled)], some .error⟩
   | .handleEvent =>      -- events.go handleEvent (since fix 41d500c called inline from Conn.recv, no longer `go …`)
@@ -215,10 +216,10 @@ def firstArm (k : FrameKind) : List (List Pat × Act) → Option Act
   | (ps, a) :: rest => if ps.any (·.matches k) then some a else firstArm k rest
 
 /-- what the site does with a frame of kind `k`; `none` = no arm and no default -/
-def action (fx : Bool) (s : Site) (k : FrameKind) : Option Act :=
-  match firstArm k (desc fx s).arms with
+def action (s : Site) (k : FrameKind) : Option Act :=
+  match firstArm k (desc s).arms with
   | some a => some a
-  | none => (desc fx s).dflt
+  | none => (desc s).dflt
 
 inductive How | panicDefault | nilDeref | assertFail deriving DecidableEq, Repr
 
@@ -241,7 +242,7 @@ def outcomeOf : Option Act → Outcome
   | some .assertpanic => .crash .assertFail
 
 /-- THE DISPATCH TABLE: site × frame kind → outcome -/
-def dispatch (fx : Bool) (s : Site) (k : FrameKind) : Outcome := outcomeOf (action fx s k)
+def dispatch (s : Site) (k : FrameKind) : Outcome := outcomeOf (action s k)
 
 def How.str : How → String
   | .panicDefault => "panic" | .nilDeref => "nil" | .assertFail => "assert"
@@ -249,23 +250,6 @@ def How.str : How → String
 def Outcome.str (s : Site) : Outcome → String
   | .handled => "handled" | .ignored => "ignored" | .error => "error"
   | .crash h => "crash:" ++ s.func ++ ":" ++ h.str
-
-/-! ## the known-bad cells of the unchanged code, characterised by predicates -/
-
-/-- kinds both heartbeat switches have an arm for -/
-def hbArm : FrameKind → Bool
-  | .supported => true
-  | k => k.isError
-
-/-- (site, kind) pairs at which the unchanged code crashes:
-    KF-C05-disp-1  Conn.heartBeat         `default: panic`  — any kind without an arm
-    KF-C05-disp-2  controlConn.heartBeat  `default: panic`  — any kind without an arm
-    KF-C05-disp-3  authenticateHandshake  AUTH_CHALLENGE while `challenger` is nil -/
-def knownBad : Site → FrameKind → Bool
-  | .connHeartBeat, k => !hbArm k
-  | .controlHeartBeat, k => !hbArm k
-  | .authHandshake true, .authChallenge => true
-  | _, _ => false
 
 /-! ## loops over the tables -/
 
@@ -330,14 +314,11 @@ def HS.isCrashed : HS → Bool
 
 /-- recursion depth of executeQuery / executeBatch: every UNPREPARED answer re-enters the function
     (`return c.executeQuery(ctx, qry)`); nothing bounds it -/
-def retryDepth (fx : Bool) (s : Site) : List FrameKind → Nat
+def retryDepth (s : Site) : List FrameKind → Nat
   | [] => 0
-  | k :: ks => if action fx s k = some .retry then retryDepth fx s ks + 1 else 0
+  | k :: ks => if action s k = some .retry then retryDepth s ks + 1 else 0
 
 /-! ## answers of the model driver -/
-
-/-- the code that exists (switched to `true` by the integrator once the fixes are committed) -/
-def current : Bool := false
 
 def insertSorted (x : String) : List String → List String
   | [] => [x]
@@ -396,11 +377,11 @@ def scenarioCell : String → Option (Site × FrameKind)
 
 /-- end-to-end scenarios that are not table cells: what the process does (recorded facts; the frame
     parse model of the integrator's part explains the first one) -/
-def scenarioFact (fx : Bool) : String → Option String
-  -- (a) EVENT STATUS_CHANGE on stream -1 whose [inet] says 16 bytes and has 2: parsed by
-  --     Session.handleEvent on the connection's serve goroutine (fact `go-launched`: no recover there), parseFrame re-panics
-  --     the runtime error (fact `parseframe-repanics`): the process dies.  KF-C05-disp-5
-  | "event-short-inet" => some "crash:framer.readInetAdressOnly:slice"
+def scenarioFact : String → Option String
+  -- (a) EVENT STATUS_CHANGE on stream -1 whose [inet] says 16 bytes and has 2: readInetAdressOnly's
+  --     length check raises a non-runtime panic, which parseFrame turns into a parse error (the op is
+  --     answered by the frame model in Driver/C05.lean; before the repair of KF-C05-5 the process died)
+  | "event-short-inet" => some "parse-error"
   | "event-wellformed" => some "survived"
   -- non-runtime panics raised by the frame parsers (`panic(fmt.Errorf(..))`) are turned into a
   -- returned error by parseFrame's deferred recover (fact `recovers`): request path → error,
@@ -408,12 +389,13 @@ def scenarioFact (fx : Bool) : String → Option String
   | "parse-error-unknown-code" => some "error"
   | "event-unknown-type" => some "parse-error"
   -- a system.local row without rpc_address / broadcast_address, read by a ring REFRESH
-  -- (getLocalHostInfo passes no connect address): HostInfo.ConnectAddress panics on the
-  -- refreshDebouncer goroutine.  KF-C05-disp-4
-  | "refresh-local-noaddr" => some (if fx then "survived" else "crash:HostInfo.ConnectAddress:panic")
+  -- (getLocalHostInfo passes no connect address): hostInfoFromMap returns an error, the refresh fails
+  -- and is logged (before the repair of KF-C05-25 HostInfo.ConnectAddress panicked on the
+  -- refreshDebouncer goroutine)
+  | "refresh-local-noaddr" => some "survived"
   -- same root cause, reached by the initial host lookup on NewSession's own goroutine: a
   -- system.peers row without peer / rpc_address
-  | "init-peer-noaddr" => some (if fx then "error" else "crash:HostInfo.ConnectAddress:panic")
+  | "init-peer-noaddr" => some "error"
   -- the server answers the same QUERY / BATCH with UNPREPARED every time: `retryDepth` grows by one
   -- per answer (theorem C05_retry_depth_unbounded), 544 bytes of goroutine stack each, until
   -- `fatal error: stack overflow` (not recoverable).  KF-C05-disp-6
@@ -421,31 +403,28 @@ def scenarioFact (fx : Bool) : String → Option String
   | "unprepared-recursion-batch" => some "crash:Conn.executeBatch:stackoverflow"
   | _ => none
 
-def scenario (fx : Bool) (n : String) : Option String :=
+def scenario (n : String) : Option String :=
   match scenarioCell n with
-  | some (s, k) => some ((dispatch fx s k).str s)
-  | none => scenarioFact fx n
+  | some (s, k) => some ((dispatch s k).str s)
+  | none => scenarioFact n
 
-/-- `fx` selects the table of the unchanged code (false) or of the code with the proposed fixes -/
-def answerFx (fx : Bool) (ws : List String) : Option String :=
+def answer (ws : List String) : Option String :=
   match ws with
   | ["disp", s, k] | ["beh", s, k] =>
     match Site.ofName s, FrameKind.ofName k with
-    | some s, some k => some ((dispatch fx s k).str s)
+    | some s, some k => some ((dispatch s k).str s)
     | none, some _ => some "unknown-site"
     | _, none => some "bad-op"
   | ["disparms", s] => match Site.ofName s with
-    | some s => some (desc fx s).str
+    | some s => some (desc s).str
     | none => some "unknown-site"
   | ["dispctx", s] => match Site.ofName s with
-    | some s => some (desc fx s).ctx.str
+    | some s => some (desc s).ctx.str
     | none => some "unknown-site"
   | ["dispsites"] => some (joinWith "," (sortStrings (Site.all.map Site.name)))
   | ["dispkinds"] => some kindsLine
   | ["dispfact", f] => some ((fact f).getD "bad-op")
-  | ["e2e", sc] => some ((scenario fx sc).getD "bad-op")
+  | ["e2e", sc] => some ((scenario sc).getD "bad-op")
   | _ => none
-
-def answer (ws : List String) : Option String := answerFx current ws
 
 end Dispatch
